@@ -400,6 +400,56 @@ func validKeyInBucket(r *Rng, nb, bucket int, forced map[string]uint64) []byte {
 	}
 }
 
+// values around the compression decision thresholds (record size 256, probe 10 KB, ratio 0.7)
+func genValueCompress(r *Rng, klen int) []byte {
+	mk := func(n int, class int) []byte {
+		b := make([]byte, n)
+		switch class {
+		case 0:
+			for i := range b {
+				b[i] = 'a'
+			}
+		case 1:
+			pat := r.Bytes(3 + r.Intn(5))
+			for i := range b {
+				b[i] = pat[i%len(pat)]
+			}
+		case 2:
+			copy(b, []byte(strings.Repeat("lorem ipsum dolor sit amet ", n/20+1)))
+		case 3:
+			copy(b, r.Bytes(n))
+		case 4:
+			copy(b, "ID3\x03\x00\x00\x00\x00\x00\x00")
+		case 5:
+			copy(b, "RIFF\x24\x00\x00\x00WAVEfmt ")
+		default: // compressible part + random part: ratio near 0.7
+			h := n * (20 + r.Intn(25)) / 100
+			for i := 0; i < h; i++ {
+				b[i] = byte(i % 5)
+			}
+			copy(b[h:], r.Bytes(n-h))
+		}
+		return b
+	}
+	var n int
+	switch r.Intn(5) {
+	case 0:
+		n = 256 - 24 - klen + r.Intn(3) - 1 // record size 255/256/257
+	case 1:
+		n = 10240 + r.Intn(3) - 1
+	case 2:
+		n = 10240 + 1 + r.Intn(2000)
+	case 3:
+		n = 300 + r.Intn(1500)
+	default:
+		n = 233 + r.Intn(40)
+	}
+	if n < 0 {
+		n = 0
+	}
+	return mk(n, r.Intn(8))
+}
+
 func genValue(r *Rng, numeric bool) []byte {
 	if numeric {
 		return []byte(strconv.Itoa(r.Intn(2000) - 1000))
@@ -469,6 +519,10 @@ func init() {
 			cf.TreeDump = 3
 			cf.NoGCDays = 1
 			cf.Now = now
+			if mode == "compress" {
+				cf.FileMax = []int64{16384, 65536, 4000 << 20}[r.Intn(3)]
+				cf.BodyMax = 50 << 20
+			}
 			run := &l2runner{home: filepath.Join(root, fmt.Sprintf("case%d", i)), cfg: *cf, forced: map[string]uint64{}}
 			os.MkdirAll(run.home, 0755)
 			// key pool
@@ -503,6 +557,9 @@ func init() {
 				return err
 			}
 			nops := 20 + r.Intn(60)
+			if mode == "compress" {
+				nops = 12 + r.Intn(14)
+			}
 			if mode == "gc" || mode == "collide" {
 				nops = 30 + r.Intn(70)
 			}
@@ -521,7 +578,11 @@ func init() {
 				switch {
 				case p < 34:
 					op.Op = "S"
-					op.V = hex.EncodeToString(genValue(r, numeric[j] && r.Chance(70)))
+					if mode == "compress" {
+						op.V = hex.EncodeToString(genValueCompress(r, len(keys[j])))
+					} else {
+						op.V = hex.EncodeToString(genValue(r, numeric[j] && r.Chance(70)))
+					}
 					if int64(len(op.V)/2) > cf.BodyMax {
 						op.V = op.V[:int(cf.BodyMax)*2]
 					}
